@@ -73,6 +73,14 @@ fn run<G: Grp>(s: &mut Src, info: &mut Info, key: &mut Key, ctx: &Ctx) -> Result
     if ctx.want_desc {
         info.desc = crate::runner::note(json!({"group": G::NAME, "relation": reln, "A": desc_pt(&a), "B": desc_pt(&b), "C": desc_pt(&c)}));
     }
+    // the endomorphism relations must really give equal / opposite y with different x (guards the generator)
+    if rel == 7 || rel == 8 {
+        let (pa, pb) = (a.aff.unwrap(), b.aff.unwrap());
+        let y_ok = if rel == 7 { pa.1 == pb.1 } else { pa.1 == pb.1.neg() };
+        if !y_ok || pa.0 == pb.0 {
+            fail!("oracle|endomorphism", "lambda*A does not have the expected coordinates");
+        }
+    }
     // reference results
     let sum = rf::aff_add(&a.aff, &b.aff);
     let dif = rf::aff_sub(&a.aff, &b.aff);
